@@ -38,7 +38,7 @@ def handle (line : String) : String :=
       match parse spec with
       | .error e => showErr e
       | .ok (s, rest) =>
-        match s.derive pw n with
+        match s.deriveFast pw n with
         | some key => s!"ok rest={rest.length} key={toHex key}"
         | none => "hang"
     | _, _, _ => "bad-op"
@@ -48,7 +48,7 @@ def handle (line : String) : String :=
       match parse spec with
       | .error e => showErr e
       | .ok (s, _) =>
-        match s.derive pw n with
+        match s.deriveFast pw n with
         | some key => s!"{toHex key}|{toHex key}"
         | none => "hang"
     | _, _, _ => "bad-op"
